@@ -1272,29 +1272,23 @@ impl App {
         }
         .wrap_err("failed to parse data items")?;
 
-        let mut all_events = if let Some(extended_commit_info_with_proof) =
-            &expanded_block_data.extended_commit_info_with_proof
-        {
-            let extended_commit_info = extended_commit_info_with_proof.extended_commit_info();
-            self.metrics.record_extended_commit_info_bytes(
+        // The prices are applied after the block's transactions have been executed (see below), so
+        // keep what is needed for that before `expanded_block_data` is consumed.
+        let extended_commit_info = expanded_block_data
+            .extended_commit_info_with_proof
+            .as_ref()
+            .map(|extended_commit_info_with_proof| {
+                self.metrics.record_extended_commit_info_bytes(
+                    extended_commit_info_with_proof
+                        .encoded_extended_commit_info()
+                        .len(),
+                );
                 extended_commit_info_with_proof
-                    .encoded_extended_commit_info()
-                    .len(),
-            );
-            let mut state_tx: StateDelta<Arc<StateDelta<Snapshot>>> =
-                StateDelta::new(self.state.clone());
-            vote_extension::apply_prices_from_vote_extensions(
-                &mut state_tx,
-                extended_commit_info,
-                finalize_block.time.into(),
-                finalize_block.height.value(),
-            )
-            .await
-            .wrap_err("failed to apply prices from vote extensions")?;
-            self.apply(state_tx)
-        } else {
-            vec![]
-        };
+                    .extended_commit_info()
+                    .clone()
+            });
+        let block_time = finalize_block.time;
+        let block_height = finalize_block.height;
 
         // FIXME: refactor to avoid cloning the finalize block
         let finalize_block_arc = Arc::new(finalize_block.clone());
@@ -1378,6 +1372,25 @@ impl App {
             .await
             .wrap_err("failed to run post execute transactions handler")?;
         }
+
+        // Apply the oracle prices on top of the executed block, whether the block was executed just
+        // now or during the proposal phase, so that every node computes the same state regardless
+        // of the ABCI calls that preceded `FinalizeBlock`.
+        let mut all_events = if let Some(extended_commit_info) = &extended_commit_info {
+            let mut state_tx: StateDelta<Arc<StateDelta<Snapshot>>> =
+                StateDelta::new(self.state.clone());
+            vote_extension::apply_prices_from_vote_extensions(
+                &mut state_tx,
+                extended_commit_info,
+                block_time.into(),
+                block_height.value(),
+            )
+            .await
+            .wrap_err("failed to apply prices from vote extensions")?;
+            self.apply(state_tx)
+        } else {
+            vec![]
+        };
 
         let PostTransactionExecutionResult {
             events,
